@@ -177,6 +177,66 @@ func shapeMis(inT *spec.T, tgt spec.T, under bool) bool {
 	return false
 }
 
+// unknownMapToOptDyn: somewhere an unknown (not null) map value is converted
+// to an object type that has an optional attribute whose type contains a
+// placeholder.
+func unknownMapToOptDyn(vals []cty.Value, inT *spec.T, tgt spec.T) bool {
+	if inT == nil {
+		return false
+	}
+	if inT.K == spec.KMap && tgt.K == spec.KObject {
+		opt := false
+		for _, ta := range tgt.Attrs {
+			if ta.Opt && ta.T.HasDynamic() {
+				opt = true
+			}
+		}
+		if opt {
+			for _, v := range vals {
+				v, _ = v.Unmark()
+				if !v.IsKnown() && v.Type().IsMapType() {
+					return true
+				}
+			}
+		}
+	}
+	switch tgt.K {
+	case spec.KList, spec.KSet, spec.KMap:
+		cv, _ := valsAt(vals, "e", 0, "")
+		switch inT.K {
+		case spec.KList, spec.KSet, spec.KMap:
+			return unknownMapToOptDyn(cv, inT.E, *tgt.E)
+		case spec.KTuple:
+			for i := range inT.Elems {
+				if unknownMapToOptDyn(cv, &inT.Elems[i], *tgt.E) {
+					return true
+				}
+			}
+		case spec.KObject:
+			for i := range inT.Attrs {
+				if unknownMapToOptDyn(cv, &inT.Attrs[i].T, *tgt.E) {
+					return true
+				}
+			}
+		}
+	case spec.KTuple:
+		for i := range tgt.Elems {
+			cv, _ := valsAt(vals, "i", i, "")
+			if unknownMapToOptDyn(cv, childIn(inT, "i", i, ""), tgt.Elems[i]) {
+				return true
+			}
+		}
+	case spec.KObject:
+		for _, ta := range tgt.Attrs {
+			cv, _ := valsAt(vals, "a", 0, ta.Name)
+			if unknownMapToOptDyn(cv, childIn(inT, "a", 0, ta.Name), ta.T) {
+				return true
+			}
+		}
+	}
+	return false
+}
+
 // errorCause classifies a conversion error that the property forbids (a safe
 // conversion failing, an abstract input failing where its concretisation
 // converts) by root cause.
@@ -184,6 +244,9 @@ func errorCause(err error, in cty.Value, target spec.T) string {
 	it := spec.FromCty(in.Type())
 	if err != nil && strings.Contains(err.Error(), "element types must all match") && setToListElemChange([]cty.Value{in}, &it, target) {
 		return causeUnknownSetToList
+	}
+	if err != nil && strings.Contains(err.Error(), "types must all match") && unknownMapToOptDyn([]cty.Value{in}, &it, target) {
+		return causeUnknownMapOptDyn
 	}
 	return ""
 }
